@@ -19,7 +19,7 @@ PROP = "C40"
 READY = True
 DRIVER = "dm_dfpart"
 LEAN_MODULES = ["DaskModel.Props.C40"]
-CASE_TIMEOUT_S = 30
+CASE_TIMEOUT_S = 90
 LEVEL_TEXT = ("Lean 4 theorems over a transliteration of the task shuffles: staged_route / staged_position (for every "
               "starting partition, after all stages a row sits in staged partition target % npartitions_input, given "
               "nsplits**stages >= npartitions_input), staged_colocated, stageIndex_is_digit / stageIndex_hashing "
